@@ -31,7 +31,7 @@ use crate::{
 	multitree::{Children, NewNode, NodeAddress},
 	options::{Options, CURRENT_VERSION},
 	parking_lot::{
-		Condvar, Mutex, MutexGuard, RwLock, RwLockUpgradableReadGuard, RwLockWriteGuard,
+		Condvar, Mutex, RwLock, RwLockUpgradableReadGuard, RwLockWriteGuard,
 	},
 	stats::StatSummary,
 	ColumnOptions, Key,
@@ -763,74 +763,6 @@ impl DbInner {
 		Ok(())
 	}
 
-	fn defer_commit(
-		&self,
-		mut queue: MutexGuard<CommitQueue>,
-		mut commit: CommitChangeSet,
-		old_bytes: usize,
-		old_id: u64,
-		new_id: Option<u64>,
-	) -> Result<()> {
-		let record_id = if let Some(id) = new_id {
-			id
-		} else {
-			queue.record_id += 1;
-			queue.record_id
-		};
-
-		let bytes = if record_id != old_id {
-			let mut overlay = self.commit_overlay.write();
-
-			let mut bytes = 0;
-
-			for (c, indexed) in &commit.indexed {
-				indexed.copy_to_overlay(
-					&mut overlay[*c as usize],
-					record_id,
-					&mut bytes,
-					&self.options,
-				)?;
-			}
-
-			for (c, iterset) in &commit.btree_indexed {
-				iterset.copy_to_overlay(
-					&mut overlay[*c as usize].btree_indexed,
-					record_id,
-					&mut bytes,
-					&self.options,
-				)?;
-			}
-
-			{
-				// Cleanup the commit overlay with old id.
-				for (c, key_values) in commit.indexed.iter() {
-					key_values.clean_overlay(&mut overlay[*c as usize], old_id);
-				}
-				for (c, iterset) in commit.btree_indexed.iter_mut() {
-					iterset.clean_overlay(&mut overlay[*c as usize].btree_indexed, old_id);
-				}
-			}
-
-			bytes
-		} else {
-			old_bytes
-		};
-
-		let commit = Commit { id: record_id, changeset: commit, bytes };
-
-		log::debug!(
-			target: "parity-db",
-			"Deferred commit, old id: {}, new id: {}",
-			old_id,
-			record_id,
-		);
-		#[cfg(pdb_verif)]
-		crate::verif::ev(crate::verif::EV_DEFER_COMMIT, old_id, record_id);
-		queue.commits.push_back(commit);
-		queue.bytes += bytes;
-		Ok(())
-	}
-
 	fn process_commits(&self, db: &Arc<DbInner>) -> Result<bool> {
 		#[cfg(any(test, feature = "instrumentation"))]
 		let might_wait_because_the_queue_is_full = self.options.with_background_thread;
@@ -913,17 +845,44 @@ impl DbInner {
 					}
 				}
 				if defer {
-					let queue = self.commit_queue.lock();
-					let new_id = if queue.commits.len() > 0 {
-						// Generate a new id
-						None
-					} else {
-						// Nothing else in the queue so can reuse same id
-						Some(commit.id)
-					};
-					self.defer_commit(queue, commit.changeset, commit.bytes, commit.id, new_id)?;
-
-					return Ok(true)
+					// Postpone only the tree dereferences. Every other operation of this commit
+					// keeps its place in commit order and is logged now.
+					let mut deferred = CommitChangeSet { check_for_deferral: true, ..Default::default() };
+					for (col, key_values) in commit.changeset.indexed.iter_mut() {
+						let (later, now): (Vec<_>, Vec<_>) = std::mem::take(&mut key_values.node_changes)
+							.into_iter()
+							.partition(|c| matches!(c, NodeChange::DereferenceChildren(..)));
+						key_values.node_changes = now;
+						if !later.is_empty() {
+							deferred
+								.indexed
+								.entry(*col)
+								.or_insert_with(|| IndexedChangeSet::new(*col))
+								.node_changes = later;
+						}
+					}
+					commit.changeset.check_for_deferral = false;
+					{
+						let mut queue = self.commit_queue.lock();
+						queue.record_id += 1;
+						let id = queue.record_id;
+						log::debug!(
+							target: "parity-db",
+							"Deferred tree dereference of commit {}, new id: {}",
+							commit.id,
+							id,
+						);
+						queue.commits.push_back(Commit { id, bytes: 0, changeset: deferred });
+					}
+					let nothing_else = commit.changeset.btree_indexed.is_empty() &&
+						commit
+							.changeset
+							.indexed
+							.values()
+							.all(|c| c.changes.is_empty() && c.node_changes.is_empty());
+					if nothing_else {
+						return Ok(true)
+					}
 				} else {
 					for (col, key_values) in commit.changeset.indexed.iter() {
 						for change in &key_values.node_changes {
